@@ -63,4 +63,97 @@ theorem resolveJoin_safe (root : Path) (rel : Str) (h : safeRel rel = true) :
   have := hall p hp
   refine ⟨?_, ?_, ?_⟩ <;> simp_all
 
+def goodSeg (p : Str) : Bool := !p.isEmpty && p != dot && p != dotdot
+
+theorem fold_len_le (segs : List Str) (acc : Path) :
+    (segs.foldl (fun acc c => if c.isEmpty || c == dot then acc else if c == dotdot then acc.dropLast else acc ++ [c]) acc).length
+      ≤ acc.length + (segs.filter goodSeg).length := by
+  induction segs generalizing acc with
+  | nil => simp
+  | cons s segs ih =>
+    simp only [List.foldl_cons]
+    refine Nat.le_trans (ih _) ?_
+    by_cases h1 : (s.isEmpty || s == dot) = true
+    · simp only [h1, if_true]
+      have : goodSeg s = false := by
+        simp only [goodSeg]
+        rcases Bool.or_eq_true_iff.mp h1 with h | h
+        · simp [h]
+        · have : s = dot := by simpa using h
+          simp [this]
+      simp [List.filter_cons, this]
+    · simp only [h1, Bool.false_eq_true, if_false]
+      by_cases h2 : (s == dotdot) = true
+      · have : goodSeg s = false := by
+          have : s = dotdot := by simpa using h2
+          simp [goodSeg, this]
+        simp only [h2, if_true, List.filter_cons, this, List.length_dropLast, Bool.false_eq_true, if_false]
+        omega
+      · have : goodSeg s = true := by
+          simp only [Bool.or_eq_true, not_or] at h1
+          simp only [goodSeg, Bool.and_eq_true, Bool.not_eq_true', bne_iff_ne, ne_eq]
+          refine ⟨⟨by simpa using h1.1, by simpa using h1.2⟩, by simpa using h2⟩
+        simp only [h2, Bool.false_eq_true, if_false, List.filter_cons, this, if_true, List.length_append, List.length_cons, List.length_nil]
+        omega
+
+theorem filter_lt_of_bad (segs : List Str) (h : ∃ p ∈ segs, goodSeg p = false) :
+    (segs.filter goodSeg).length < segs.length := by
+  obtain ⟨p, hp, hb⟩ := h
+  induction segs with
+  | nil => cases hp
+  | cons s segs ih =>
+    rcases List.mem_cons.mp hp with rfl | hp
+    · simp only [List.filter_cons, hb, Bool.false_eq_true, if_false, List.length_cons]
+      have := List.length_filter_le goodSeg segs
+      omega
+    · have := ih hp
+      have hle := List.length_filter_le goodSeg segs
+      simp only [List.filter_cons, List.length_cons]
+      split
+      · simp only [List.length_cons]; omega
+      · omega
+
+theorem splitSlash_abs (cs : Str) : ∃ t, splitSlash ('/' :: cs) = [] :: t := by
+  simp only [splitSlash]
+  split
+  · rename_i h; exact absurd h (splitSlash_ne_nil cs)
+  · exact ⟨_, by simp; rfl⟩
+
+/-- **the guard is exact**: the place the kernel resolves `root/rel` to is the root followed by
+    exactly the segments of `rel` if and only if `ensure_within_storage_root` accepts `rel` -/
+theorem resolveJoin_exact_iff (root : Path) (rel : Str) :
+    resolveJoin root rel = root ++ splitSlash rel ↔ safeRel rel = true := by
+  constructor
+  · intro h
+    cases hs : safeRel rel with
+    | true => rfl
+    | false =>
+      exfalso
+      -- some segment is dropped, or the path is absolute
+      have hbad : ∃ p ∈ splitSlash rel, goodSeg p = false := by
+        cases rel with
+        | nil => exact ⟨[], by simp [splitSlash], by simp [goodSeg]⟩
+        | cons c cs =>
+          by_cases hc : c = '/'
+          · subst hc
+            obtain ⟨t, ht⟩ := splitSlash_abs cs
+            exact ⟨[], by rw [ht]; exact List.mem_cons_self .., by simp [goodSeg]⟩
+          · have : (splitSlash (c :: cs)).all (fun p => !p.isEmpty && p != dot && p != dotdot) = false := by
+              have hh : ((c :: cs).head? != some '/') = true := by simp [hc]
+              simp only [safeRel, List.isEmpty_cons, Bool.not_false, Bool.true_and, hh] at hs
+              exact hs
+            have := List.all_eq_false.mp this
+            obtain ⟨p, hp, hq⟩ := this
+            exact ⟨p, hp, by simpa [goodSeg] using hq⟩
+      have hlt := filter_lt_of_bad _ hbad
+      have hle := fold_len_le (splitSlash rel) (if rel.head? == some '/' then [] else root)
+      have hlen : (resolveJoin root rel).length = root.length + (splitSlash rel).length := by
+        rw [h, List.length_append]
+      have hbase : (if rel.head? == some '/' then ([] : Path) else root).length ≤ root.length := by
+        split <;> simp
+      simp only [resolveJoin] at hlen
+      rw [hlen] at hle
+      omega
+  · exact resolveJoin_safe root rel
+
 end Rocfl
